@@ -5,7 +5,7 @@ import _std
 from vlib import lgen, schemas, variants
 
 META = {}
-SKIP = {'named_args_reordered'}          # known finding of C01; not re-reported here
+SKIP = {'named_args_reordered', 'rec_iter_forced_depth2'}     # known findings of C01 / C03; not re-reported here
 
 
 def variant_schemas(tier, seed):
@@ -15,6 +15,8 @@ def variant_schemas(tier, seed):
   for s in lgen.ALL:
     if s['name'] in SKIP or s.get('ordered'):
       continue
+    if tier == 'quick' and (s.get('workflow') or s['name'].startswith('bi_')):
+      continue          # deep-recursion / workflow / built-in value schemas: thorough tier only
     body = s['text']
     vs = []
     for t in variants.permute_statements(body, rnd, lim):
